@@ -143,7 +143,8 @@ impl Inner {
         unsafe {
             let parsed: String = crate::from_slice_unchecked(raw).ok()?;
             let parsed = Arc::into_raw(Arc::new(parsed)) as *mut ();
-            match self.unescaped.compare_exchange_weak(
+            // a weak compare-exchange may fail spuriously and return the (null) expected value
+            match self.unescaped.compare_exchange(
                 ptr,
                 parsed,
                 Ordering::AcqRel,
@@ -151,7 +152,8 @@ impl Inner {
             ) {
                 Ok(_) => Some(&*(parsed as *const String)),
                 Err(e) => {
-                    Arc::decrement_strong_count(parsed);
+                    // another reader has published its decoding: release ours (as the `String` it is)
+                    Arc::decrement_strong_count(parsed as *const String);
                     Some(&*(e as *const String))
                 }
             }
